@@ -160,6 +160,29 @@ fn t_c15(rng: &mut Rng, g: &mut GenCfg, w: &mut WorldCfg) {
     w.ids_every = 6;
 }
 
+fn t_c12(rng: &mut Rng, g: &mut GenCfg, w: &mut WorldCfg) {
+    g.wsel = [40, 1, 0, 0, 0, 2, 12, 4, 4, 2];
+    g.pct_invalid = *rng.pick(&[0, 5]);
+    g.n_ops = rng.range(6, 24);
+    g.max_text_len = *rng.pick(&[3, 8, 12, 20, 40]);
+    g.alphabets = [true, true, rng.chance(1, 2), rng.chance(1, 2), rng.chance(1, 3), true];
+    g.w[W_REMOVE_ANNOTATION] = *rng.pick(&[0, 3]);
+    g.w[W_REMOVE_RESOURCE] = *rng.pick(&[0, 1]);
+    g.w[W_PROTECT] = 0;
+    if rng.chance(1, 3) {
+        g.restart_formats = vec![*rng.pick(&[Format::JsonInline, Format::Cbor])];
+        g.w[W_RESTART] = 2;
+    }
+    w.ids_every = 0;
+    w.conversions = true;
+    w.probes = true;
+    // the primary's knobs are drawn by the runner; the replicas take two other settings
+    let all = [0usize, 1, 2, 3, 7, 100];
+    let mut others: Vec<usize> = all.iter().cloned().filter(|x| *x != w.milestone_interval).collect();
+    rng.shuffle(&mut others);
+    w.replicas = vec![(others[0], !w.shrink_to_fit), (others[1], w.shrink_to_fit)];
+}
+
 fn t_c14(rng: &mut Rng, g: &mut GenCfg, w: &mut WorldCfg) {
     g.pct_invalid = *rng.pick(&[30, 50]);
     g.w[W_ANNOTATE_BATCH] = *rng.pick(&[0, 6, 10]);
@@ -264,6 +287,16 @@ pub fn profiles() -> Vec<Profile> {
             quick_runs: 4000,
             thorough_runs: 200000,
             rule: STATE_RULE,
+        },
+        Profile {
+            property: "C12",
+            engine: "stamsim-lockstep",
+            owners: &["C12"],
+            level: "exploration",
+            tweak: t_c12,
+            quick_runs: 1500,
+            thorough_runs: 100000,
+            rule: "one run = one seeded trace executed on three replicas that differ only in milestone_interval (0,1,2,3,7,100) and shrink_to_fit, each in lock-step with the reference model; the conversion oracle (every position and byte offset, on resources and sub-selections) runs after every step; probe answers (text search, split, trim, regex, segmentation, related text) must be equal across replicas; non-trivial and distinct as for the other lock-step checks",
         },
         Profile {
             property: "C14",
